@@ -54,6 +54,16 @@ func shapes(th bool) []*DAG {
 	d.Index("R", []int{b}, ManifestOpt{Subject: m})
 	d.Manifest("X", c, []int{l}, ManifestOpt{Subject: b, ArtifactType: "application/vnd.test.x"})
 	out = append(out, d)
+	// one blob file known under two media types (a custom-typed {} config and the empty-JSON layer) in a
+	// referrer: after GC or a reopen the graph knows both descriptors, the layout holds one file
+	e := &DAG{Name: "same-bytes-two-types"}
+	ec := e.Blob("C", MTConfig, `{"c":1}`)
+	el := e.Blob("L", MTLayer, "l")
+	em := e.Manifest("M", ec, []int{el}, ManifestOpt{Subject: -1})
+	cx := e.Blob("Cx", "application/vnd.test.config+json", "{}")
+	ex := e.Blob("Ex", "application/vnd.oci.empty.v1+json", "{}")
+	e.Manifest("R", cx, []int{ex}, ManifestOpt{Subject: em, ArtifactType: "application/vnd.test.sig"})
+	out = append(out, e.MergeSameDigest())
 	return out
 }
 
